@@ -165,6 +165,10 @@ class ReadPathRun:
                 self.server_accept_and_ack()
                 return True
             return False
+        if ch.flag("rd.slow", 1, 6):
+            # a slow link: time passes while the bytes trickle in (deadlines may pass in the middle of a frame)
+            self.w.clock.advance(ch.choose("rd.slow.dt", [0.05, 0.4, 1.5]))
+            self.res.stats["slow_link_delays"] += 1
         if sock.rx_inflight:
             how = ch.weighted("rd.arrive", [(4, "all"), (2, "need"), (2, "cut")])
             if how == "all" or len(sock.rx_inflight) == 1:
@@ -313,13 +317,15 @@ class ReadPathRun:
             return False
         return True
 
-    def do_read(self):
+    def do_read(self, poll_only=False):
         from pyrtma.exceptions import (ConnectionLost, UnknownMessageType, InvalidMessageDefinition,
                                        NotConnectedError)
         ch = self.ch
         res = self.res
         c = self.client
         timeout = ch.weighted("rd.timeout", [(4, 0), (3, 0.25), (2, -1), (1, None), (1, 3)])
+        if poll_only:
+            timeout = 0
         ack = ch.flag("rd.ack", 1, 5)
         sync = ch.flag("rd.sync", 1, 2)
         # 'currently subscribed' is judged by the history of API calls, not by what the client reports
@@ -574,6 +580,11 @@ class ReadPathRun:
                     self.server_close(ch.choose("cl.kind", ["fin", "rst"]))
             # drain: keep reading until the stream is exhausted (or the connection is lost)
             guard = 0
+            # some applications only ever poll (timeout 0): the drain is then done with polling reads only
+            poll_only = ch.flag("dr.poll_only", 1, 3)
+            stuck = 0
+            if poll_only:
+                res.probes["drain_by_polling"] += 1
             while not lost and not res.violations and guard < 60:
                 guard += 1
                 if self.consumed >= self.stream_len and self.closed_kind is None:
@@ -581,14 +592,28 @@ class ReadPathRun:
                 if self.closed_kind is not None and guard > 40:
                     break
                 self._arrive_all(self.csock)      # whatever is still in flight has arrived by now
-                if self.do_read() == "lost":
+                if poll_only and self.closed_kind is not None:
+                    s_ = self.csock               # ... including the server's FIN / RST
+                    if s_.rx_fin == 1 or s_.rx_rst == 1:
+                        s_.arrive()
+                        if s_.rx_rst == 1:
+                            s_.arrive_rst_now()
+                before_ = self.consumed
+                if self.do_read(poll_only=poll_only) == "lost":
                     lost = True
+                elif poll_only and self.closed_kind is not None:
+                    stuck = stuck + 1 if self.consumed == before_ else 0
             if self.closed_kind is not None and not lost and not res.violations:
                 # after the close, with everything readable consumed, the next read must report the loss
                 if self.consumed >= self.closed_at:
                     if self.do_read() != "lost":
                         res.add("C08", "loss_not_reported", "the server closed and the stream is exhausted, but "
                                                             "read_message did not raise ConnectionLost")
+                elif poll_only and stuck >= 5:
+                    # polling reads after everything (and the end of the stream) had arrived
+                    res.add("C08", "loss_not_reported", "the server closed inside a frame and everything it sent has "
+                            f"arrived, but the last {stuck} polling reads (timeout 0) neither consumed anything nor raised ConnectionLost",
+                            sig="loss_not_reported_polling")
             if lost:
                 from pyrtma.exceptions import NotConnectedError
                 try:
